@@ -11,6 +11,17 @@ with the same seed are compared with each other (lattice and TurtleMD); the gene
 (entropy, spawn counter, bit-generator state) observed at the last write and after the restart
 must be equal and match the extracted model's persisted image; with several workers the jobs
 re-issued after a restart must be exactly the (ensemble, path) pairs recorded in restart.toml.
+Round 6: (a) set-ups in which sort_trajstate really moves trajectories (6-8 ensembles, far-reaching
+initial paths in low slots, sh-only and wire fencing) are run in one go and split at EVERY step
+(infretis_data.txt, restart.toml and order.txt/energy.txt of every stored path compared); at every
+pick of the uninterrupted run the probability matrix the program uses must equal the one
+recomputed from the current weight matrix and busy flags (in-memory state that is not a function
+of what a restart reloads is what breaks restart equivalence; a mismatch is confirmed by the byte
+comparison at that split, if necessary with a search over more seeds); the number of steps in
+which trajectories were moved is reported in the evidence.  (b) allowmaxlength = false: restart
+CHAINS that all begin with the same restart (k1 -> N, k1 -> k2 -> N for a range of k2,
+k1 -> k2 -> k3 -> N) are compared byte for byte, sh-only and mixed sh/wf, several seeds; the
+number of shooting moves cut by the random length bound (FTL/BTL) is reported in the evidence.
 """
 import importlib.util  # noqa: F401
 import os
@@ -23,8 +34,8 @@ META = {
     "id": "C06",
     "level": "proof",
     "technique": "Coq theorems (generic restart-chain equivalence by induction over the chain; exact recovery of the generator state; exactness of re-issued jobs from the REPEX invariant) + byte-for-byte comparison of straight and restarted runs of the real program at every split point",
-    "text": "Unbounded theorems: for any deterministic step function whose persisted image is recovered up to an equivalence the step respects, every chain of stop/restart segments yields the same final state and exactly the same emitted rows as the straight run; the scheduler's generator (entropy = seed, spawn counter, bit-generator state) is recovered exactly by the repaired set_rgen from what write_toml stores for every seed, step and number of in-flight jobs (the original set_rgen is refuted for seed != 0 and for several workers); a job re-issued by pick_lock holds exactly the recorded ensembles and paths, sitting in those ensembles, and is re-entered in the lock list. Tie: infretis_data.txt and restart.toml of the real program compared byte for byte between straight runs and runs restarted at EVERY split point (and chains of 2-3 restarts) for several seeds, step counts and move sets; same-seed runs compared (lattice, TurtleMD); generator state observed before the stop and after the restart; multi-worker restarts re-issue exactly the recorded jobs.",
-    "note": "Trusted: Coq kernel; extraction + OCaml driver; harness (a stop is a process-level stop between two completions: the in-process runner has already executed the next job, whose files stay in the worker directory, as after a real kill). The instance hypotheses of the generic theorem (the real step function is deterministic given the generator state; recovery restores every field the step reads: paths to six decimals on the lattice, weights, fractions, locks) are not proved in Coq: they are what the byte-for-byte comparison checks. Scope as in the property: order files carry six decimals (the lattice plug-in's values are exactly representable; with TurtleMD only same-seed runs are compared), the loss of the 'initial path' marker ('ld' -> 're') at a restart is kept out by allowmaxlength = true in every compared run (a false alarm of the first thorough run: seed 1, sh,sh,wf,wf, restart at step 1, without that setting). Bit-generator state round trip through TOML is checked, not proved.",
+    "text": "Unbounded theorems: for any deterministic step function whose persisted image is recovered up to an equivalence the step respects, every chain of stop/restart segments yields the same final state and exactly the same emitted rows as the straight run; the scheduler's generator (entropy = seed, spawn counter, bit-generator state) is recovered exactly by the repaired set_rgen from what write_toml stores for every seed, step and number of in-flight jobs (the original set_rgen is refuted for seed != 0 and for several workers); a job re-issued by pick_lock holds exactly the recorded ensembles and paths, sitting in those ensembles, and is re-entered in the lock list. Tie: infretis_data.txt and restart.toml of the real program compared byte for byte between straight runs and runs restarted at EVERY split point (and chains of 2-3 restarts) for several seeds, step counts and move sets; same-seed runs compared (lattice, TurtleMD); generator state observed before the stop and after the restart; multi-worker restarts re-issue exactly the recorded jobs. Re-sorting set-ups (sort_trajstate moves trajectories in about one step out of five) split at every step, with the probability matrix used by every pick of the uninterrupted run compared with the one recomputed from the current state; with allowmaxlength = false, restart chains k1->N, k1->k2->N, k1->k2->k3->N compared byte for byte (runs in which the random length bound really cuts shooting moves).",
+    "note": "Trusted: Coq kernel; extraction + OCaml driver; harness (a stop is a process-level stop between two completions: the in-process runner has already executed the next job, whose files stay in the worker directory, as after a real kill). The instance hypotheses of the generic theorem (the real step function is deterministic given the generator state; recovery restores every field the step reads: paths to six decimals on the lattice, weights, fractions, locks) are not proved in Coq: they are what the byte-for-byte comparison checks. Scope as in the property: order files carry six decimals (the lattice plug-in's values are exactly representable; with TurtleMD only same-seed runs are compared), the loss of the 'initial path' marker ('ld' -> 're') at a restart is kept out by allowmaxlength = true in every compared run (a false alarm of the first thorough run: seed 1, sh,sh,wf,wf, restart at step 1, without that setting). Bit-generator state round trip through TOML is checked, not proved. With allowmaxlength = false only restart chains with the same first restart are compared with each other (never with the run in one go), as the scope sentence prescribes. The probability-matrix oracle recomputes inf_retis on the live state (at most 12 ensembles: no random numbers are drawn inside) and compares with tolerance 1e-9.",
     "design_ref": "4/C06",
 }
 LEVEL = "proof"
@@ -503,7 +514,7 @@ def round6_cases(quick, rng):
         plan = [(7, "wf", "low1", (0, 1, 4, 5)), (7, "sh", "low2", (0, 3, 5)), (7, "sh", "low1", (4, 7)), (6, "sh", "half", (2, 5)), (6, "wf", "half", (4,))]
         N = 12
     else:
-        plan = [(n, mv, kind, tuple(range(12))) for n in (5, 6, 7, 8) for mv in ("sh", "wf") for kind in ("low1", "low2", "half")]
+        plan = [(n, mv, kind, tuple(range(8))) for n in (5, 6, 7, 8) for mv in ("sh", "wf") for kind in ("low1", "low2", "half")]
         N = 16
     for n, mv, kind, seeds in plan:
         moves = ["sh"] * n if mv == "sh" else ["sh", "sh"] + ["wf"] * (n - 2)
@@ -517,7 +528,7 @@ def round6_cases(quick, rng):
               ("mix5", dict(n_intf=5, moves=["sh", "sh", "wf", "sh", "wf"], init_reach=reach("half", 5))),
               ("mix4-cap", dict(n_intf=4, moves=["sh", "wf", "wf", "sh"], cap=2.75))]
     for label, s in setups:
-        for seed in ((0, 1, 5) if quick else (0, 1, 2, 3, 5, 7, 11, 99)):
+        for seed in ((0, 1, 5) if quick else (0, 1, 2, 3, 5, 7)):
             k1 = 2 + seed % 3
             if quick:
                 k2s = sorted({k1 + 2, 10, 14, 19, 25})
@@ -717,7 +728,8 @@ def run(ctx):
                         "probability matrix recomputed at every pick, or one restart chain with allowmaxlength = false compared with the chain "
                         "that has only the first restart")
     ctx.cov["trusted_base"] += ["extraction + ocaml/c06_driver.ml", "py/sysharness.py", "py/plugins/engines.py lattice engine"]
-    ctx.assumptions += ["order values are exactly representable at six decimals (lattice plug-in); TurtleMD only same-seed comparison"]
+    ctx.assumptions += ["order values are exactly representable at six decimals (lattice plug-in); TurtleMD only same-seed comparison",
+                        "allowmaxlength = false: only restart chains sharing their first restart are compared (scope of the property)"]
 
 
 def replay(doc):
